@@ -340,6 +340,22 @@ pub fn tall_case() -> BoxedStrategy<TriCase> {
         .boxed()
 }
 
+/// Wide, flat triangles: at most 16 rows high, thousands of pixels wide (edge slopes of thousands of pixels per row).
+pub fn wide_case() -> BoxedStrategy<TriCase> {
+    let w = prop_oneof![2 => 2000.0f32..20000.0, 3 => 16000.0f32..40000.0, 1 => Just(16384.0f32), 1 => Just(32768.0f32)];
+    (w, screen_coord(16.0), screen_coord(16.0), screen_coord(16.0), 0.0f32..1.0, 0.0f32..64.0, any::<u8>(), 0u8..3)
+        .prop_map(|(w, y0, y1, y2, t, x0, k, shape)| {
+            let v = match shape {
+                0 => [[x0, y0], [x0, y1], [x0 + w, y2]],          // vertical left edge
+                1 => [[x0, y0], [x0 + w, y1], [x0 + w, y2]],      // vertical right edge
+                _ => [[x0, y0], [x0 + w * t, y1], [x0 + w, y2]],  // general
+            };
+            let v = perm(v, k);
+            TriCase { shape: "wide".into(), v: v.map(|p| [X(p[0]), X(p[1])]) }
+        })
+        .boxed()
+}
+
 /// Tolerance band (px) as a function of the largest coordinate magnitude (DESIGN D-a).
 pub fn band_for(maxc: f64) -> f64 {
     if maxc <= 128.0 {
@@ -375,6 +391,7 @@ pub fn shape_class(s: &str) -> &'static str {
         "one-row-half" => "shape:one-row-half",
         "ulp-flat" => "shape:ulp-flat",
         "tall" => "shape:tall(>2000 rows)",
+        "wide" => "shape:wide(>2000 px, <=16 rows)",
         _ => "shape:other",
     }
 }
@@ -587,6 +604,8 @@ pub fn run(cx: &mut Ctx) {
     cx.prop_check("mesh", n, mesh_case, |c, obs| check_mesh(c, obs));
     let n = cx.n(400, 10_000);
     cx.prop_check("tall", n, tall_case, |c, obs| check_random(c, obs));
+    let n = cx.n(400, 10_000);
+    cx.prop_check("wide", n, wide_case, |c, obs| check_random(c, obs));
 }
 
 pub fn replay(sub: &str, case: &Value) -> Check {
@@ -596,7 +615,7 @@ pub fn replay(sub: &str, case: &Value) -> Check {
         let c: LatticeCase = serde_json::from_value(case.clone()).map_err(|e| Fail::new("bad-replay", e.to_string()))?;
         let ext = c.v.iter().flatten().max().copied().unwrap_or(0) / c.q + 1;
         check_lattice(&c, ext, &mut obs)
-    } else if sub == "random" || sub == "tall" {
+    } else if sub == "random" || sub == "tall" || sub == "wide" {
         let c: TriCase = serde_json::from_value(case.clone()).map_err(|e| Fail::new("bad-replay", e.to_string()))?;
         check_random(&c, &mut obs)
     } else if sub == "mesh" {
